@@ -250,3 +250,52 @@ Proof.
   intros ref boot e c G Gb S Hin. apply (min_transfer_dist_delta ref boot e c G Gb S Hin).
   eapply topo_depth_pos; eassumption.
 Qed.
+
+(** * rejection, at full strength: the offending tree may also carry a tip name twice *)
+Local Open Scope string_scope.
+Theorem dup_reference_rejected : forall ref boots,
+    has_dup (tip_names ref) = true ->
+    oerr (fbp ref boots) = dup_msg /\ oerr (tbe ref boots) = dup_msg.
+Proof. intros ref boots H. unfold fbp, tbe. rewrite H. split; reflexivity. Qed.
+
+Lemma has_dup_leaves : forall t, wf t = true -> 2 <= degree t ->
+                                 (has_dup (tip_names t) = true <-> ~ NoDup (leaves t)).
+Proof.
+  intros t W D. rewrite (tip_names_leaves t W D). rewrite <- has_dup_false.
+  destruct (has_dup (leaves t)); split; intros; congruence.
+Qed.
+
+Theorem bad_bootstrap_tree_rejected : forall ref boots b,
+    good ref -> In b boots -> wf b = true -> 2 <= degree b ->
+    ~ (NoDup (leaves b) /\ same_taxa_p ref b) ->
+    oerr (fbp ref boots) <> "" /\ oerr (tbe ref boots) <> "".
+Proof.
+  intros ref boots b G Hb W D Bad.
+  assert (Dr : has_dup (tip_names ref) = false).
+  { destruct G as [Wr [Dr N]]. rewrite (tip_names_leaves ref Wr Dr). apply has_dup_false. exact N. }
+  assert (E : no_err (boot_err ref b) = false).
+  { unfold boot_err. destruct (has_dup (tip_names b)) eqn:Hd; [reflexivity|].
+    destruct (no_err (compare_tip_indexes (tip_names ref) (tip_names b))) eqn:C; [|reflexivity].
+    exfalso. apply Bad.
+    assert (N : NoDup (leaves b)).
+    { rewrite (tip_names_leaves b W D) in Hd. apply has_dup_false. exact Hd. }
+    split; [exact N|]. apply (boot_err_ok ref b G (conj W (conj D N))).
+    unfold boot_err. rewrite Hd. apply String.eqb_eq. exact C. }
+  assert (F : no_err (first_err ref boots) = false).
+  { rewrite first_err_ok. destruct (forallb _ boots) eqn:A; [|reflexivity].
+    rewrite forallb_forall in A. rewrite (A b Hb) in E. discriminate. }
+  rewrite (fbp_err ref boots Dr), (tbe_err ref boots Dr).
+  unfold no_err in F. apply String.eqb_neq in F. split; exact F.
+Qed.
+
+(** non-vacuity: a bootstrap tree with the name c twice, after a good one *)
+Definition w_boot_dup : utree := wroot [wtip "a"; wtip "b"; wnode [wtip "c"; wtip "c"]].
+Lemma w_dup_example :
+  wf w_boot_dup = true /\ 2 <= degree w_boot_dup /\ ~ NoDup (leaves w_boot_dup) /\
+  oerr (fbp w_ref [w_boot; w_boot_dup]) = dup_msg /\ oerr (tbe w_ref [w_boot; w_boot_dup]) = dup_msg.
+Proof.
+  split; [reflexivity|]. split; [unfold degree; simpl; lia|]. split.
+  - simpl. intros N. inversion N as [|? ? _ N1]; subst. inversion N1 as [|? ? _ N2]; subst.
+    inversion N2 as [|? ? H _]; subst. apply H. left. reflexivity.
+  - split; vm_compute; reflexivity.
+Qed.
